@@ -1,13 +1,28 @@
 from vcommon import Suite
 
+
+def rewrite_os_for_c10(dst):
+    """In the scratch copy only, import lines only: `"os"` of internal/counter (file.go, counter.go) and of
+    internal/mmap goes through harness/shim/vosy (yield point of the deterministic scheduler + numbered fault
+    point at every file-system call; plain package os when neither is active)."""
+    for d, names in ((dst / "internal" / "counter", ("file.go", "counter.go")), (dst / "internal" / "mmap", None)):
+        for p in d.glob("*.go"):
+            if p.name.endswith("_test.go") or (names and p.name not in names):
+                continue
+            t = p.read_text()
+            t2 = t.replace('\t"os"\n', '\tos "golang.org/x/telemetry/internal/verifh/shim/vosy"\n')
+            if t2 != t:
+                p.write_text(t2)
+
 SPEC = {
     "id": "C10",
     "title": "Written counter files conform to the documented v1 on-disk format",
     "design_ref": "DESIGN.md section 7, C10",
     "suites": [
         Suite(name="layout", harness="vh_layout", runner="layout",
-              model_deps=["theories/Model/Layout.vo", "theories/Model/Parse.vo", "theories/Model/LayoutRef.vo"],
-              quick_n=500, thorough_n=6000, timeout=3000,
+              model_deps=["theories/Model/Layout.vo", "theories/Model/LayoutMulti.vo", "theories/Model/Parse.vo",
+                          "theories/Model/LayoutRef.vo"],
+              quick_n=420, thorough_n=6000, timeout=3000, rewrite=rewrite_os_for_c10,
               rule="cases: real place on (hdrLen, limit, namelen) incl. limits around page ends, unaligned, near 2^32 (55%); "
                    "real hash (10%); real mappedHeader (5%); operation sequences through the real mappedFile API "
                    "(openMapped, newCounter, Add on the returned pointer, extend, close/reopen incl. foreign metadata) or the "
@@ -15,14 +30,27 @@ SPEC = {
                    "1..4096 with NUL/newline/0xff/UTF-8/stack shapes, names aimed at the last 10 units of a page, files of "
                    "1..6 pages (12 in thorough), compared byte for byte with the model's rendering (20%); files written by "
                    "an independent Go encoder (several placement/link/tag policies) read by the real Parse and continued by "
-                   "the real library (10%). distinct = distinct case lines; every case compares implementation observables "
+                   "the real library (10%). In the mapped-API sequences 18% of the operations run with a fault plan in the "
+                   "os shim (file-system call 0..5 of the operation fails with ENOSPC/EIO/EFBIG/EDQUOT; names chosen so that "
+                   "the record does not fit into the file, i.e. the calls of extend are reached); limit and size are read "
+                   "from disk after EVERY operation, failed ones included. Before those: racing creation: 2 (thorough: 12) "
+                   "scenarios of 2 or 3 writers (independent openMapped handles as managed threads of the deterministic "
+                   "scheduler, parked before every file-system call) opening the SAME file that is absent / empty / "
+                   "header-only and adding 1-2 counters each, under every plan with at most 2 preemptions (3 writers in the "
+                   "quick tier: 400 sampled plans), one case per distinct schedule, replayed on Model/LayoutMulti. "
+                   "distinct = distinct case lines; every case compares implementation observables "
                    "with the model and evaluates the layout oracle, none is trivial"),
     ],
     "technique": "Coq proof (placement arithmetic for all limits by lia over div/mod; wf_file as an inductive invariant of "
                  "every single-writer operation sequence via frame lemmas on byte lists; refinement of the byte-level writer "
                  "to an abstract name->value map; independent encoder proved well-formed and read back) + "
                  "translator-generated constants + byte-exact differential correspondence of the extracted model",
-    "level_text": "round, hash and mappedFile.place of the model are proved equal, for all inputs in range, to the Go functions "
+    "level_text": "Also proved: with a failing file-system call at any point of a file growth, after every operation (failed "
+                  "ones included) the file is well-formed and limit <= size, and a failed operation changes no record "
+                  "(C10_writer_wf_with_failing_growth, C10_failed_op_changes_no_record); for every interleaving of the "
+                  "file-system calls of any number of writers creating the same file, the file is absent, header-only or "
+                  "well-formed and reads back exactly the operations performed (C10_racing_creation). "
+                  "round, hash and mappedFile.place of the model are proved equal, for all inputs in range, to the Go functions "
                   "as translated from the current source on every run (Gen/GoFns.v). Machine-checked theorems over the Gallina model of round/hash/mappedHeader/place/entryAt/lookup/newCounter/"
                   "extend/openMapped: place_ok for every limit and name length 1..4096 below the uint32 wrap; the hash is "
                   "FNV-1a 32 with the published constants, folded, mod 512; wf_file (the documented layout as an executable "
@@ -32,8 +60,11 @@ SPEC = {
                   "exactly the abstract map of the operations; files of the independent encoder are well-formed and the "
                   "model of Parse reads them back. The model is tied to the code by byte-for-byte comparison of real files "
                   "with the model's rendering and by evaluating wf_file and the independent reader on the real bytes.",
-    "level_note": "Single writer only: several concurrent writers (CAS on the limit and on bucket heads, dead records) are "
-                  "C04's subject and are not proved here. Sequences are restricted to files at least 64 KiB below the 4 GiB "
+    "level_note": "Several writers are covered for the creation sequence of openMapped only (each writer's later operations "
+                  "are single steps of that model); their interleaving at atomic-operation granularity (CAS on the limit "
+                  "and on bucket heads, dead records) is C04's subject and is not proved here. Faults are errno failures "
+                  "without partial effect (no short writes) of the calls made by extend; a process killed between two "
+                  "calls is the 'writer that stops anywhere' of the racing-creation schedules, not of the growth sequence. Sequences are restricted to files at least 64 KiB below the 4 GiB "
                   "cap of the format (hypothesis all_small / small): beyond it place and extend wrap in uint32 "
                   "(C10_place_wraps_near_4GiB), not reachable in tests. The empty name and names over 4096 bytes are "
                   "refused by newCounter and leave the file unchanged (C10_refused_names). The top byte of the name "
@@ -48,9 +79,14 @@ SPEC = {
         "metadata is at most 512 bytes, has no NUL byte and consists of \"key: value\" lines (what rotate1 writes)",
         "counter names of 1..4096 bytes get a record; the empty name and longer ones are refused (modelled and proved harmless)",
     ],
-    "trusted_base": [],
+    "trusted_base": [
+        "harness/shim/vosy (os with a scheduler yield and a numbered fault point at every file-system call) and vsched; "
+        "import rewrite `\"os\"` -> vosy of internal/counter (file.go, counter.go) and internal/mmap in the scratch copy, "
+        "import lines only",
+    ],
     "own_objects": ["theories/Props/C10.vo", "theories/Proofs/LayoutArith.vo", "theories/Proofs/LayoutRead.vo",
                     "theories/Proofs/LayoutWrite.vo", "theories/Proofs/WriterFacts.vo", "theories/Proofs/WriterInv.vo",
-                    "theories/Proofs/EncodeFacts.vo", "theories/Proofs/FormatExtras.vo", "theories/Proofs/GoFnsLayout.vo",
+                    "theories/Proofs/EncodeFacts.vo", "theories/Proofs/FormatExtras.vo", "theories/Proofs/GoFnsLayout.vo", "theories/Proofs/MultiFacts.vo",
+                    "theories/Model/LayoutMulti.vo",
                     "theories/Model/Layout.vo"],
 }
